@@ -65,6 +65,24 @@ def gen(rng, tier, index):
     return {"cfg": cfg, "ops": ops}
 
 
+def _without_clock(trace):
+    """The trace with the payload of time replies blanked: what the clock says is not part of the state, and the two
+    executions need not take the same simulated time (the formats write different numbers of buffers)."""
+    out = []
+    for entry in trace:
+        if len(entry) >= 3 and isinstance(entry[2], list):
+            lines = []
+            for ln in entry[2]:
+                parts = str(ln).split(";", 5)
+                if len(parts) == 6 and parts[2] == "3" and parts[4] == "1":
+                    parts[5] = "<time>"
+                    ln = ";".join(parts)
+                lines.append(ln)
+            entry = (entry[0], entry[1], lines) + tuple(entry[3:])
+        out.append(entry)
+    return out
+
+
 def run(case):
     results = {}
     finals = {}
@@ -74,7 +92,7 @@ def run(case):
         res = netsim.run_case(sub, OWN)
         run_ = res.pop("run")
         results[fmt] = (res, run_)
-        finals[fmt] = (run_.model.projection(), [t for t in res["trace"]])
+        finals[fmt] = (run_.model.projection(), _without_clock(res["trace"]))
     res_p, run_p = results["pickle"]
     res_j, run_j = results["json"]
     violations = list(res_p["violations"]) + list(res_j["violations"])
